@@ -199,7 +199,7 @@ pub fn run_history_on<T: std::io::Write + std::io::Seek>(
                 e["flushedShx"] = json!(o1.flushed.1);
                 tr.emit(e);
             }
-            'D' | 'W' => {
+            'D' | 'W' | 'U' => {
                 let wr = w.take().unwrap();
                 let mut res = json!({"res": "ok"});
                 if ch == 'W' {
@@ -215,6 +215,19 @@ pub fn run_history_on<T: std::io::Write + std::io::Seek>(
                         accepted.push(clone_shape(&sa));
                         accepted.push(clone_shape(&sb));
                     }
+                } else if ch == 'U' {
+                    // the writer goes out of scope while its thread unwinds from a panic of the caller
+                    let r = guarded(move || {
+                        let _w = wr;
+                        if std::hint::black_box(true) {
+                            panic!("UNWINDING-CALLER");
+                        }
+                    });
+                    match r {
+                        Err(p) if p.contains("UNWINDING-CALLER") => {}
+                        Err(p) => res = json!({"res": "panic", "msg": p}),
+                        Ok(()) => res = json!({"res": "panic", "msg": "no unwinding"}),
+                    }
                 } else {
                     let r = guarded(move || drop(wr));
                     if let Err(p) = r {
@@ -223,7 +236,8 @@ pub fn run_history_on<T: std::io::Write + std::io::Seek>(
                 }
                 let (ps, px) = plain_run(&accepted, with_shx);
                 let mut e = res;
-                e["ev"] = json!(if ch == 'D' { "drop" } else { "consume" });
+                e["ev"] = json!(if ch == 'W' { "consume" } else { "drop" });
+                e["unwinding"] = json!(ch == 'U');
                 e["shapes"] = json!([oa.to_json(), ob.to_json()]);
                 let o1 = observe();
                 e["shp"] = jbytes(&o1.shp);
@@ -320,9 +334,13 @@ pub fn run(a: &Args) {
         for tx in &xs {
             let syms = random_syms(&mut r, t, *tx);
             for h in all_hists(&['a', 'b', 'x', 'F'], n) {
-                for ending in ["D", "FD", "W"] {
+                for ending in ["D", "FD", "W", "U"] {
                     for ws in [true, false] {
                         if all_x && ending != "D" && *tx != xs[0] {
+                            continue;
+                        }
+                        // (dropped while unwinding from a caller's panic: on the indexed writer only)
+                        if ending == "U" && !ws {
                             continue;
                         }
                         // W needs the file type to be t (or unset): skip when x came first
@@ -356,7 +374,7 @@ pub fn run(a: &Args) {
         for _ in 0..nrandom {
             let len = 5 + r.below(26);
             let mut h: String = (0..len).map(|_| *r.pick(&['a', 'b', 'a', 'b', 'x', 'F', 'F'])).collect();
-            h.push_str(*r.pick(&["D", "FD", "W"]));
+            h.push_str(*r.pick(&["D", "FD", "W", "U", "FU"]));
             if h.ends_with('W') && h.chars().find(|c| *c != 'F') == Some('x') {
                 h.pop();
                 h.push('D');
@@ -368,6 +386,21 @@ pub fn run(a: &Args) {
             k += 1;
             distinct.insert((t, ws, h.clone()));
             run_history(&mut traces[i], &concs[i], t, ws, &h, &syms, &prop, None);
+        }
+    }
+    // 4. histories that reach "round" numbers of uncommitted records (255, 256, 257, 512) before the event of
+    //    interest: a refused write, a finalize, another write (point shapes: the traces stay small)
+    if !a.has("nolong") {
+        let t = [1, 21, 11][seed as usize % 3];
+        let syms = random_syms(&mut r, t, other_type(t, seed as usize));
+        for n in [255usize, 256, 257, 512] {
+            for tail in ["xD", "xFaD", "FxaU"] {
+                let h = format!("{}{}", "a".repeat(n), tail);
+                let i = k % chunks;
+                k += 1;
+                distinct.insert((t, true, h.clone()));
+                run_history(&mut traces[i], &concs[i], t, n % 2 == 0, &h, &syms, &prop, None);
+            }
         }
     }
     let mut files = vec![];
